@@ -83,13 +83,21 @@ impl Check for C07 {
             .map(|_| {
                 let h = g.range(0, nh - 1);
                 let port = if g.chance(50) { *g.pick(&[0u64, 1, 80, 255, 256, 443, 65_535]) } else { g.range(0, 65_535) };
-                let via = *g.pick(&["direct", "socks5", "socks5", "http", "udp", "raw"]);
-                json!({"host": h, "port": port, "via": via, "gap_ms": *g.pick(&[0u64, 0, 1_000, 59_000, 61_000, 150_000]), "pieces": g.range(1, 6)})
+                let via = *g.pick(&["direct", "socks5", "socks5", "http", "udp", "raw", "burst"]);
+                // burst: 2-3 requests for the same host with different ports started at the same instant
+                let more: Vec<u64> = (0..g.range(1, 2)).map(|_| g.range(1, 65_535)).collect();
+                json!({"host": h, "port": port, "more_ports": more, "via": via, "gap_ms": *g.pick(&[0u64, 0, 1_000, 59_000, 61_000, 150_000]), "pieces": g.range(1, 6)})
             })
             .collect();
         // tiny padding sizes on the client split the first packet (and with it the destination) over many records
         let scheme = if g.chance(50) { DEFAULT_SCHEME.to_string() } else { "stop=5\n0=10-30\n1=3-9,4-8,5-7,c,6-20,c,9-40\n2=7-7,8-8,c,9-9\n3=1-5,1-5,1-5,1-5\n4=2-2".to_string() };
-        json!({"net": net, "hosts": hosts, "reqs": reqs, "scheme": scheme})
+        let mut net = net;
+        let has_burst = reqs.iter().any(|r| r["via"] == "burst");
+        if has_burst {
+            // concurrent requests are only interesting when they can pre-empt each other inside the resolver
+            net["budget_ppm"] = json!(*g.pick(&[200_000u64, 600_000, 900_000]));
+        }
+        json!({"net": net, "hosts": hosts, "reqs": reqs, "scheme": scheme, "dns_delay_us": if has_burst { *g.pick(&[300u64, 300, 4_000]) } else { *g.pick(&[0u64, 0, 300, 4_000]) }})
     }
     fn horizon(&self, _p: &Value) -> Duration {
         Duration::from_secs(20_000)
@@ -101,7 +109,10 @@ impl Check for C07 {
             let hosts = plan["hosts"].as_array().cloned().unwrap_or_default();
             for h in &hosts {
                 if let Some(a) = h["addrs"].as_array() {
-                    set_dns(h["host"].as_str().unwrap_or(""), a.iter().filter_map(|x| x.as_str().and_then(|s| s.parse::<IpAddr>().ok())).collect());
+                    let addrs: Vec<IpAddr> = a.iter().filter_map(|x| x.as_str().and_then(|s| s.parse::<IpAddr>().ok())).collect();
+                    let delay_us = plan["dns_delay_us"].as_u64().unwrap_or(0);
+                    let name = h["host"].as_str().unwrap_or("").to_string();
+                    world::with(|w| w.net.dns.insert(name, anytls_simnet::net::DnsEntry { addrs, delay_us, fail: false, hang: false }));
                 }
             }
             let padding = crate::tiera::factory(plan["scheme"].as_str().unwrap_or(DEFAULT_SCHEME));
@@ -139,6 +150,36 @@ impl Check for C07 {
                 let before_udp = world::with(|w| w.net.udp_log.len()).unwrap_or(0);
                 let mut udp_local: Option<SocketAddr> = None;
                 let sig_kind = format!("{}:{}", via, if is_name { "name" } else if host.contains(':') { "ipv6" } else { "ipv4" });
+                if via == "burst" {
+                    let mut ports: Vec<u16> = vec![port];
+                    ports.extend(r["more_ports"].as_array().into_iter().flatten().filter_map(|x| x.as_u64()).map(|x| x as u16));
+                    let mut hs = Vec::new();
+                    for p in ports.iter() {
+                        let (c, h2, p2) = (client.clone(), host.clone(), *p);
+                        hs.push(anytls_simnet::spawn(async move { timeout(Duration::from_secs(120), c.create_proxy_stream((h2, p2))).await.map(|r| r.map(|_| ()).map_err(|e| e.to_string())) }));
+                    }
+                    let mut failed = None;
+                    for h in hs {
+                        match h.await {
+                            Ok(Ok(Ok(()))) => {}
+                            other => failed = Some(format!("{:?}", other.map(|r| r.map_err(|_| "timeout")))),
+                        }
+                    }
+                    if let Some(e) = failed {
+                        out.viol("request-failed", format!("request-failed:burst:{}", if is_name { "name" } else { "literal" }), format!("request #{} (burst to {} ports {:?}) failed without any fault: {}", ri, host, ports, e));
+                        break;
+                    }
+                    let new: Vec<SocketAddr> = world::with(|w| w.net.connect_log[before_tcp..].iter().filter(|c| c.dialed != server_addr() && c.dialed != SOCKS_ADDR.parse().unwrap() && c.dialed != HTTP_ADDR.parse().unwrap()).map(|c| c.dialed).collect()).unwrap_or_default();
+                    let mut got_ports: Vec<u16> = new.iter().map(|a| a.port()).collect();
+                    let mut want_ports = ports.clone();
+                    got_ports.sort_unstable();
+                    want_ports.sort_unstable();
+                    if got_ports != want_ports || new.iter().any(|a| !allowed.contains(&a.ip())) {
+                        out.viol("wrong-destination", format!("wrong-destination:burst:{}:{}", if is_name { "name" } else { "literal" }, if got_ports != want_ports { "port-of-concurrent-request" } else { "address" }), format!("request #{}: {} concurrent requests asked for {} ports {:?} (addresses {:?}); the server dialled {:?}", ri, ports.len(), host, ports, allowed, new));
+                        break;
+                    }
+                    continue;
+                }
                 let res: Result<(), String> = match via {
                     "direct" => match timeout(Duration::from_secs(120), client.create_proxy_stream((host.clone(), port))).await {
                         Ok(Ok(_)) => Ok(()),
